@@ -269,6 +269,20 @@ def run_shard(desc):
                     d = _diff.diff(text, doc)
                     if d:
                         sh.violation(violation(d[0], {"query": text, "ordered_dict_doc": di}, d[1], d[2], "wrong"))
+        # shorthand member names at the edges of the ABNF's name-first / name-char ranges
+        for name in ["\U0001F600", "\u00e9", "_", "a\U0001F600b", "\U0010FFFF", "\uE000", "\uFFFF", "\U00010000",
+                     "\uD7FF", "\u0080", "a1", "_1", "\U0001F600\U0001F600", "Z", "a_\u00e9\U00010000"]:
+            doc = {name: 1, "x": [{name: 2, "y": {name: [3]}}]}
+            for text in (f"$.{name}", f"$..{name}", f"$.x[0].{name}", f"$.x..{name}", f"$..{name}[0]", f"$ .{name}",
+                         f"$.x[0].y.{name}[0]", f"$..y..{name}"):
+                sh.states += 1
+                sh.transitions += 1
+                sh.traces += 1
+                sh.evaluations += 1
+                sh.nontrivial += 1
+                v = check_case({"query": text, "doc": impl.jsonable(doc)})
+                if v:
+                    sh.violation(v)
         # the bare root query: exactly the root node, whatever the document is
         from mc.gen import docs as _gd
         for doc in get_docs(3) + _gd.kinds() + NUM_DOCS:
